@@ -51,6 +51,8 @@ structure AOps (R : Type) extends Ops R where
   log : R → Option R
   sqrt : R → Option R
   conj : R → R
+  /-- a real upper bound of the size (|x|; |re|+|im| for complex): magnitude evaluation only -/
+  absv : R → R
   ofRat : Rat → R
   /-- the natural number a value denotes, if it is one (category index of a discrete input) -/
   toNat : R → Option Nat
